@@ -1758,6 +1758,18 @@ class Interp(object):
                 return {ast.Lt: c < 0, ast.LtE: c <= 0, ast.Gt: c > 0,
                         ast.GtE: c >= 0}[type(op)]
             return _Cond('%s:%r' % (type(op).__name__, d), d)
+        # an infinity against a finite number (or the other infinity)
+        def ext(v):
+            if isinstance(v, Opaque) and v.desc in ('np.inf', '-np.inf'):
+                return 1 if v.desc == 'np.inf' else -1
+            if is_scalar(v) and not isinstance(v, Opaque):
+                return 0
+            return None
+        el, er = ext(l), ext(r)
+        if el is not None and er is not None and (el or er):
+            c = el - er
+            return {ast.Lt: c < 0, ast.LtE: c <= 0, ast.Gt: c > 0,
+                    ast.GtE: c >= 0}[type(op)]
         if isinstance(l, Opaque) or isinstance(r, Opaque):
             return _Cond('cmp:%s' % ast.unparse(node))
         raise Undecided('comparison %s' % ast.unparse(node))
@@ -1817,6 +1829,10 @@ class Interp(object):
                 return True
             return False
         if isinstance(container, (list, tuple, dict, str, range)):
+            if isinstance(item, Opaque) and item.desc in _NONFINITE and \
+                    isinstance(container, (list, tuple)):
+                return any(isinstance(c, Opaque) and c.desc == item.desc
+                           and 'nan' not in c.desc for c in container)
             try:
                 return item in container
             except Exception:
